@@ -1,4 +1,6 @@
 import ZipVerif.Lemmas.Layers
+import ZipVerif.Lemmas.EntryBridge
+import ZipVerif.Lemmas.ShortRead
 /-
 C09 — Results do not depend on how I/O is chunked.
 Property theorems only; helper lemmas are in `Lemmas/Layers.lean`, the model in `Model/Layers.lean`.
@@ -266,6 +268,137 @@ theorem read_exact_agree {σ₁ σ₂ : Type} {src₁ : Src σ₁} {src₂ : Src
     obtain ⟨_, e2⟩ := (readExact_denotes h₂ n).2 (by omega)
     rw [e1, e2]
 
+/-! ## Archive level: the entries `by_index` / the streaming reader hand out (finding F9)
+
+`Lemmas/EntryBridge.lean` connects the call-by-call layer model with the reader model
+(`Model/Reader.lean`: `byIndexRead`, `streamEntry`), so the pipeline theorems apply to every entry of
+every byte string `ZipArchive::new` accepts, with the parameters `by_index` takes from the parsed
+central record. -/
+
+/-- **Bytes of an entry do not depend on chunking - seekable reader, every accepted byte string.**
+`by_index` hands out unencrypted entry `i` with read-to-end result `res`; `c` is the decoder `ext`
+summarises on this entry's stored bytes (`CodecFor`: a theorem for Stored - `codecFor_stored` -, for
+compressed methods the hypothesis on intact streams - `codecFor_intact`).  Two readers holding the
+archive's bytes from the data start, with arbitrary and different short-read behaviour, read with two
+arbitrary buffer schedules (zeros included): both loops return the same bytes and end the same way,
+namely as `res` says; after a clean end every further read returns 0 bytes. -/
+theorem archive_entry_chunk_independent {σ₁ σ₂ : Type} (ext : Model.Ext) (bs : Bytes)
+    {fa₀ : Option Nat} {a : Model.Archive} {d₀ : Model.Dev}
+    (hopen : Model.openArchive fa₀ (Model.Dev.ofBytes bs) = (.ok a, d₀))
+    {i : Nat} {data : Model.FileData} (hfile : a.files[i]? = some data)
+    (henc : data.encrypted = false) {pw : Option Bytes} {fa : Option Nat} {d' : Model.Dev} {ds : Nat}
+    {res : Out Bytes} (h : Model.byIndexRead ext a i pw fa d₀ = (.ok (.ok (ds, res)), d'))
+    (c : Codec)
+    (hc : Model.CodecFor ext data.method c ((bs.drop ds).take data.compressedSize.toNat))
+    (inner₁ : Src σ₁) (s₁ : σ₁) (h₁ : Denotes inner₁ s₁ (bs.drop ds) .eof)
+    (inner₂ : Src σ₂) (s₂ : σ₂) (h₂ : Denotes inner₂ s₂ (bs.drop ds) .eof)
+    {reqs₁ reqs₂ : List Nat} {b₁ b₂ : Bytes} {t₁ t₂ : Term} {e₁ : c.St (σ₁ × Nat) × UInt32}
+    {e₂ : c.St (σ₂ × Nat) × UInt32}
+    (r₁ : readToEnd (entryPipeline c inner₁ data.crc32 false)
+      (c.init (s₁, data.compressedSize.toNat), Crc32.init) reqs₁ = some (b₁, t₁, e₁))
+    (r₂ : readToEnd (entryPipeline c inner₂ data.crc32 false)
+      (c.init (s₂, data.compressedSize.toNat), Crc32.init) reqs₂ = some (b₂, t₂, e₂)) :
+    b₁ = b₂ ∧ t₁ = t₂ ∧ res = Model.outOfLoop (b₁, t₁) ∧
+      (t₁ = .eof → ∀ more, ∀ r ∈ (run (entryPipeline c inner₁ data.crc32 false) e₁ more).1,
+        r = .ok []) := by
+  have hbuf : d₀.buf = bs := by
+    have := Model.openArchive_readOnly.elim fa₀ (Model.Dev.ofBytes bs)
+    rw [hopen] at this; exact this
+  have hd₁ := pipeline_denotes_codec c inner₁ data.compressedSize.toNat
+    (by rw [Model.takeTerm_eof]; exact hc.chunk) data.crc32 false h₁
+  have hd₂ := pipeline_denotes_codec c inner₂ data.compressedSize.toNat
+    (by rw [Model.takeTerm_eof]; exact hc.chunk) data.crc32 false h₂
+  obtain ⟨hb, ht⟩ := read_loops_agree hd₁ hd₂ r₁ r₂
+  obtain ⟨_, _, hst⟩ := denotes_readToEnd hd₁ r₁
+  refine ⟨hb, ht, ?_, fun hte more => eof_sticky_run (hst hte) more⟩
+  rw [← hbuf] at hc h₁
+  exact Model.entry_bridge hfile henc h c hc inner₁ s₁ h₁ reqs₁ r₁
+
+/-- The same for the streaming reader: parameters from the LOCAL record, bytes behind the header. -/
+theorem stream_entry_chunk_independent {σ₁ σ₂ : Type} (ext : Model.Ext) {fa : Option Nat}
+    {d d' : Model.Dev} {f : Model.FileData} {res : Out Bytes}
+    (h : Model.streamEntry ext fa d = (.ok (some (f, res)), d')) :
+    ∃ d1, Model.streamHeader fa d = (.ok (some f), d1) ∧ d1.buf = d.buf ∧
+    ∀ (c : Codec), Model.CodecFor ext f.method c ((d.buf.drop d1.pos).take f.compressedSize.toNat) →
+    ∀ (inner₁ : Src σ₁) (s₁ : σ₁), Denotes inner₁ s₁ (d.buf.drop d1.pos) .eof →
+    ∀ (inner₂ : Src σ₂) (s₂ : σ₂), Denotes inner₂ s₂ (d.buf.drop d1.pos) .eof →
+    ∀ (reqs₁ reqs₂ : List Nat) (b₁ b₂ : Bytes) (t₁ t₂ : Term) (e₁ : c.St (σ₁ × Nat) × UInt32)
+      (e₂ : c.St (σ₂ × Nat) × UInt32),
+      readToEnd (entryPipeline c inner₁ f.crc32 false)
+        (c.init (s₁, f.compressedSize.toNat), Crc32.init) reqs₁ = some (b₁, t₁, e₁) →
+      readToEnd (entryPipeline c inner₂ f.crc32 false)
+        (c.init (s₂, f.compressedSize.toNat), Crc32.init) reqs₂ = some (b₂, t₂, e₂) →
+      b₁ = b₂ ∧ t₁ = t₂ ∧ res = Model.outOfLoop (b₁, t₁) := by
+  obtain ⟨d1, h1, hb, hres⟩ := Model.streamEntry_inv h
+  refine ⟨d1, h1, hb, ?_⟩
+  intro c hc inner₁ s₁ h₁ inner₂ s₂ h₂ reqs₁ reqs₂ b₁ b₂ t₁ t₂ e₁ e₂ r₁ r₂
+  have hd₁ := pipeline_denotes_codec c inner₁ f.compressedSize.toNat
+    (by rw [Model.takeTerm_eof]; exact hc.chunk) f.crc32 false h₁
+  have hd₂ := pipeline_denotes_codec c inner₂ f.compressedSize.toNat
+    (by rw [Model.takeTerm_eof]; exact hc.chunk) f.crc32 false h₂
+  obtain ⟨hbb, ht⟩ := read_loops_agree hd₁ hd₂ r₁ r₂
+  refine ⟨hbb, ht, ?_⟩
+  rw [hres, hb]
+  exact Model.pipeline_eq_decode_crc ext f.method c _ _ _ hc inner₁ s₁ h₁ reqs₁ r₁
+
+/-- `CodecFor` for Stored entries is a theorem (no decoder), for compressed entries whose stored bytes
+are an encoder's output it follows from `Codec.IntactOK`. -/
+theorem codecFor_available (ext : Model.Ext) :
+    (∀ C, (∀ x, ext.decode .stored x = .ok x) → Model.CodecFor ext .stored storedCodec C) ∧
+    (∀ (m : Model.Method) (c : Codec) (encode : Bytes → Bytes) (p : Bytes), c.IntactOK encode →
+      ext.decode m (encode p) = .ok p → Model.CodecFor ext m c (encode p)) :=
+  ⟨fun C hst => Model.codecFor_stored ext hst C,
+   fun m c encode p hc hdec => Model.codecFor_intact ext m c encode hc p hdec⟩
+
+/-! ## Metadata under short reads of the underlying reader (finding F9(2))
+
+The reader model's monad runs over a never-short `Cursor`.  `Model/ShortRead.lean` runs the SAME
+parsers (`G.openArchive` … written generically over their I/O vocabulary and proved EQUAL to the
+model's parsers at `M`: `G.openArchive_M`) over the same device with an arbitrary short-read schedule
+`sch` (call number `k` delivers at most `max (sch k) 1` bytes, i.e. any non-empty prefix of what is
+available) and the real `read_exact` retry loop. -/
+
+/-- **The metadata do not depend on how the underlying reader splits its reads.**  For every byte
+string and every short-read schedule, `ZipArchive::new` over the short-reading reader ends exactly as
+over the `Cursor`: the same archive value (entries in order, offset, comment) or the same error, and
+the reader is left on the same bytes at the same position. -/
+theorem open_archive_short_read_independent (bs : Bytes) (sch : Nat → Nat) :
+    ∃ o d' sd', Model.openArchive none (Model.Dev.ofBytes bs) = (o, d') ∧
+      (Model.G.openArchive : Model.MS Model.Archive) sch (Model.Dev.ofBytes bs) = (o, sd') ∧
+      sd'.buf = d'.buf ∧ sd'.pos = d'.pos := by
+  have h := Model.G.sim_openArchive.elim sch (Model.Dev.ofBytes bs) (Model.Dev.ofBytes bs) ⟨rfl, rfl⟩
+  rw [Model.G.openArchive_M] at h
+  exact h
+
+/-- Two schedules give the same view. -/
+theorem open_archive_schedules_agree (bs : Bytes) (sch₁ sch₂ : Nat → Nat) :
+    ((Model.G.openArchive : Model.MS Model.Archive) sch₁ (Model.Dev.ofBytes bs)).1 =
+      ((Model.G.openArchive : Model.MS Model.Archive) sch₂ (Model.Dev.ofBytes bs)).1 := by
+  obtain ⟨o₁, _, _, e₁, f₁, _⟩ := open_archive_short_read_independent bs sch₁
+  obtain ⟨o₂, _, _, e₂, f₂, _⟩ := open_archive_short_read_independent bs sch₂
+  rw [f₁, f₂]
+  rw [e₁] at e₂
+  exact (Prod.mk.inj e₂).1
+
+/-- The local-header reads of `by_index` (`find_content`) likewise: same data start or same error,
+from any state of the reader, and the reader is left at the same position - where the entry's data
+path (`archive_entry_chunk_independent`) takes over, for which the short-reading device is one of
+the readers (`short_device_denotes`). -/
+theorem find_content_short_read_independent (f : Model.FileData) (sch : Nat → Nat)
+    (d sd : Model.Dev) (hb : sd.buf = d.buf) (hp : sd.pos = d.pos) :
+    ∃ o d' sd', Model.findContent f none d = (o, d') ∧
+      (Model.G.findContent f : Model.MS Nat) sch sd = (o, sd') ∧
+      sd'.buf = d'.buf ∧ sd'.pos = d'.pos := by
+  have h := (Model.G.sim_findContent f).elim sch d sd ⟨hb, hp⟩
+  rw [Model.G.findContent_M] at h
+  exact h
+
+/-- The short-reading device as a reader of the layer model: delivers the bytes behind its position,
+then a clean end of file, under every schedule. -/
+theorem short_device_denotes (sch : Nat → Nat) (d : Model.Dev) :
+    Denotes (Model.shortSrc sch) d (d.buf.drop d.pos) .eof :=
+  Model.shortSrc_denotes sch d
+
 /-! ## Defect D1 (fixed by c83eb5a): the old ZipCrypto reader was not chunk independent -/
 
 /-- Two underlying readers holding the same two ciphertext bytes - one hands them over together, the
@@ -429,5 +562,22 @@ example (inner : Src σ) (s : σ) (tail : Bytes) (o : Term)
   have e3 : pickyCodec.decode [1, 2, 3] .eof = ([1, 2, 3], .eof) := by decide
   rw [e3] at h1
   simpa [crcTerm] using h1
+
+/-- `archive_entry_chunk_independent` on a concrete archive (101 bytes, one Stored entry "Z"): accepted,
+entry 0 handed out by the reader model with content "Z", and the call-by-call read gives the same over
+a reader delivering 1 byte at a time with buffers 0,3,0,3 and over one delivering 5 bytes at a time
+with buffers 1,1,1. -/
+example :
+    Model.openReadBoth Model.oneEntry 0 [1] [0, 3, 0, 3] = some (31, [0x5a], some ([0x5a], .eof)) ∧
+    Model.openReadBoth Model.oneEntry 0 [5] [1, 1, 1] = some (31, [0x5a], some ([0x5a], .eof)) := by
+  refine ⟨by decide +kernel, by decide +kernel⟩
+
+/-- `open_archive_short_read_independent` observed on the 101-byte archive: one byte per call and the
+`Cursor` give the same single entry `a` and end at the same position; the short-reading run needed
+more calls (so short reads did occur). -/
+example :
+    (Model.openBoth Model.oneEntry (fun _ => 1)).map (fun r => (r.1, r.2.1, r.2.2.1.2 == r.2.2.2.2,
+      decide (r.2.2.1.1 < r.2.2.2.1))) = some ([[0x61]], [[0x61]], true, true) := by
+  decide +kernel
 
 end ZipVerif.Props.C09
